@@ -20,6 +20,7 @@ unplace() { rm -rf tests examples/seed_demo.rs seed_demo.sh; }
 rundemo() { case "$KIND" in
   test) cargo test --offline --test seed_demo > "$W/demo.log" 2>&1;;
   test-release) cargo test --offline --release --test seed_demo > "$W/demo.log" 2>&1;;
+  test-verif) cargo test --offline --features verif --test seed_demo > "$W/demo.log" 2>&1;;
   example) cargo run --offline --example seed_demo > "$W/demo.log" 2>&1;;
   example-release) cargo run --offline --release --example seed_demo > "$W/demo.log" 2>&1;;
   example-verif) cargo run --offline --features verif --example seed_demo > "$W/demo.log" 2>&1;;
